@@ -25,6 +25,11 @@ func main() {
 		c01crashChild()
 	}
 	r := ev.Parse("model_checking")
+	if r.Thorough() && r.Deadline.IsZero() {
+		// the thorough tier deepens the searches by one letter; the deeper levels of the bigger worlds are
+		// explored for as long as this budget lasts (reported as a cap, exhaustive=false for what was cut)
+		r.Deadline = r.Start.Add(20 * time.Minute)
+	}
 	switch os.Args[1] {
 	case "C06":
 		runC06Pruner(r)
